@@ -1086,7 +1086,54 @@ Proof.
   split; [lia|]. split; [exact Hneed|exact Hlast].
 Qed.
 
-(* the same with the repair: the whole source arrives *)
+(* the same with the repair: exactly the first total bytes arrive, for any total <= |F| *)
+Theorem copier_sparse_fixed_total F bs mx total ranges sched :
+  0 < bs -> 0 < mx -> 0 <= total <= zlen F ->
+  ranges_sorted 0 ranges = true -> ranges_end 0 ranges <= total ->
+  (forall q, 0 <= q < total -> in_ranges ranges q = false -> znth F q = 0) ->
+  copier_honest F (copier_init bs mx total true true ranges) sched = true ->
+  c_status (copier_run bs mx total true true ranges sched) <> CRunning ->
+  c_status (copier_run bs mx total true true ranges sched) = COk /\
+  copier_dst (copier_run bs mx total true true ranges sched) = ztake total F.
+Proof.
+  intros Hbs Hmx Ht Hsorted Hend Hholes Hh Hfin. unfold copier_run in *.
+  assert (Hinv : crun F ranges total total true true (fold_left copier_step sched (copier_init bs mx total true true ranges)) \/
+                 cpost F ranges total total true true (fold_left copier_step sched (copier_init bs mx total true true ranges))).
+  { assert (Ha0 : forall q, in_ranges ranges q = true -> 0 <= q).
+    { intros q Hin. exact (in_ranges_sorted_ge _ _ _ Hsorted Hin). }
+    apply (copier_run_inv F ranges total (proj2 Ht) Hholes Ha0); [|exact Hh].
+    apply (copier_init_inv F ranges total Hholes Ha0); try lia; try reflexivity; assumption. }
+  destruct Hinv as [(Hst & _)|Hpost]; [contradiction|].
+  destruct Hpost as (_ & _ & _ & _ & dst & Hv & Hneed & Hlast & Hlen & Htop & Hacc & Hstat).
+  cbn [andb] in Hacc. cbn [negb] in Hstat. rewrite andb_false_r in Hstat.
+  split; [exact Hstat|]. unfold copier_dst. rewrite Hacc. cbn [fst].
+  pose proof (zlen_nonneg dst) as Hnn.
+  set (last := c_last (fold_left copier_step sched (copier_init bs mx total true true ranges))) in *.
+  destruct (last <? total) eqn:E.
+  - (* trailing hole: one zero byte is written at total - 1 *)
+    apply zlist_ext.
+    + rewrite zlen_file_write by lia. change (zlen [0]) with 1. simpl. rewrite zlen_ztake. lia.
+    + intros q Hq. rewrite zlen_file_write in Hq by lia. change (zlen [0]) with 1 in Hq. simpl in Hq.
+      rewrite znth_file_write by lia. change (zlen [0]) with 1.
+      rewrite znth_ztake. replace (q <? total) with true by lia.
+      destruct ((total - 1 <=? q) && (q <? total - 1 + 1)) eqn:E1.
+      * replace (q - (total - 1)) with 0 by lia. change (znth [0] 0) with 0.
+        symmetry. apply Hholes; [lia|]. destruct (in_ranges ranges q) eqn:Ein; [|reflexivity].
+        specialize (Hneed q Ein). lia.
+      * destruct (Z_lt_le_dec q (zlen dst)) as [Hlt|Hge].
+        -- apply Hv. lia.
+        -- rewrite (znth_beyond dst) by lia. symmetry. apply Hholes; [lia|].
+           destruct (in_ranges ranges q) eqn:Ein; [|reflexivity]. specialize (Hneed q Ein). lia.
+  - (* the last data range reaches total *)
+    assert (Hl : last = total) by lia.
+    apply ztake_ext; [lia| |exact Hv].
+    destruct (Z.eq_dec total 0) as [E0|E0]; [lia|].
+    assert (total - 1 < zlen dst) by (apply Hneed; rewrite <- Hl; apply Htop; lia). lia.
+Qed.
+
+Lemma ztake_all F : ztake (zlen F) F = F.
+Proof. unfold ztake, zlen. rewrite Nat2Z.id. apply firstn_all. Qed.
+
 Theorem copier_sparse_fixed F bs mx ranges sched :
   0 < bs -> 0 < mx ->
   ranges_sorted 0 ranges = true -> ranges_end 0 ranges <= zlen F ->
@@ -1096,38 +1143,9 @@ Theorem copier_sparse_fixed F bs mx ranges sched :
   c_status (copier_run bs mx (zlen F) true true ranges sched) = COk /\
   copier_dst (copier_run bs mx (zlen F) true true ranges sched) = F.
 Proof.
-  intros Hbs Hmx Hsorted Hend Hholes Hh Hfin. unfold copier_run in *.
-  assert (Hinv : crun F ranges (zlen F) (zlen F) true true (fold_left copier_step sched (copier_init bs mx (zlen F) true true ranges)) \/
-                 cpost F ranges (zlen F) (zlen F) true true (fold_left copier_step sched (copier_init bs mx (zlen F) true true ranges))).
-  { assert (Ha0 : forall q, in_ranges ranges q = true -> 0 <= q).
-    { intros q Hin. exact (in_ranges_sorted_ge _ _ _ Hsorted Hin). }
-    apply (copier_run_inv F ranges (zlen F) (Z.le_refl _) Hholes Ha0); [|exact Hh].
-    apply (copier_init_inv F ranges (zlen F) Hholes Ha0); try lia; try reflexivity; assumption. }
-  destruct Hinv as [(Hst & _)|Hpost]; [contradiction|].
-  destruct Hpost as (_ & _ & _ & _ & dst & Hv & Hneed & Hlast & Hlen & Htop & Hacc & Hstat).
-  cbn [andb] in Hacc. cbn [negb] in Hstat. rewrite andb_false_r in Hstat.
-  split; [exact Hstat|]. unfold copier_dst. rewrite Hacc. cbn [fst].
-  pose proof (zlen_nonneg dst) as Hnn.
-  set (last := c_last (fold_left copier_step sched (copier_init bs mx (zlen F) true true ranges))) in *.
-  destruct (last <? zlen F) eqn:E.
-  - (* trailing hole: one zero byte is written at |F| - 1 *)
-    symmetry. apply zlist_ext.
-    + rewrite zlen_file_write by lia. change (zlen [0]) with 1. simpl. lia.
-    + intros q Hq. rewrite znth_file_write by lia. change (zlen [0]) with 1.
-      destruct ((zlen F - 1 <=? q) && (q <? zlen F - 1 + 1)) eqn:E1.
-      * replace (q - (zlen F - 1)) with 0 by lia. change (znth [0] 0) with 0.
-        apply Hholes; [lia|]. destruct (in_ranges ranges q) eqn:Ein; [|reflexivity].
-        specialize (Hneed q Ein). lia.
-      * destruct (Z_lt_le_dec q (zlen dst)) as [Hlt|Hge].
-        -- symmetry. apply Hv. lia.
-        -- rewrite (znth_beyond dst) by lia. apply Hholes; [lia|].
-           destruct (in_ranges ranges q) eqn:Ein; [|reflexivity]. specialize (Hneed q Ein). lia.
-  - (* the last data range reaches the end *)
-    assert (Hl : last = zlen F) by lia.
-    destruct (Z.eq_dec (zlen F) 0) as [E0|E0].
-    + rewrite (zlen_zero_nil F E0). apply zlen_zero_nil. lia.
-    + assert (zlen F - 1 < zlen dst) by (apply Hneed; rewrite <- Hl; apply Htop; lia).
-      symmetry. apply zlist_ext; [lia|]. intros q Hq. symmetry. apply Hv. lia.
+  intros Hbs Hmx Hs He Hh Hhon Hfin. pose proof (zlen_nonneg F).
+  destruct (copier_sparse_fixed_total F bs mx (zlen F) ranges sched Hbs Hmx (conj H (Z.le_refl _)) Hs He Hh Hhon Hfin) as [H1 H2].
+  split; [exact H1|]. rewrite H2. apply ztake_all.
 Qed.
 
 (* ------------------------------------------------------------------------------------------ *)
@@ -1569,9 +1587,6 @@ Qed.
 (* ------------------------------------------------------------------------------------------ *)
 (* corollaries used by Props/C12.v *)
 
-Lemma ztake_all F : ztake (zlen F) F = F.
-Proof. unfold ztake, zlen. rewrite Nat2Z.id. apply firstn_all. Qed.
-
 (* a sparse copy of a file that does not end in a hole is exact *)
 Corollary copier_sparse_no_trailing_hole F bs mx total ranges sched :
   0 < bs -> 0 < mx ->
@@ -1605,4 +1620,17 @@ Proof.
   intros q Hq Hin. apply Hz; [exact Hq|].
   rewrite (req_ranges_data ext 0 0 (zlen F) q Hwf) in Hin.
   replace (0 <=? q) with true in Hin by lia. exact Hin.
+Qed.
+
+(* the recursive copy driver hands the copier the size of the file that open() will open *)
+Lemma copy_total_is_stat_size follow lst st t :
+  (a_type lst <> 3 -> lst = st) -> copy_total follow lst st = Some t -> t = a_size st.
+Proof.
+  intros Hsame. unfold copy_total, copy_attrs.
+  destruct (a_type lst =? 3) eqn:E.
+  - destruct follow; simpl.
+    + destruct ((a_type st =? 2) || (a_type st =? 3)); [discriminate|]. intros H; inversion H; reflexivity.
+    + rewrite E, orb_true_r. discriminate.
+  - rewrite andb_false_r. rewrite <- (Hsame ltac:(lia)).
+    destruct ((a_type lst =? 2) || (a_type lst =? 3)); [discriminate|]. intros H; inversion H; reflexivity.
 Qed.
